@@ -415,6 +415,11 @@ func sessionIdle() bool {
 		if bytes.Contains(body, []byte("main.sessionIdle")) {
 			continue // the sampler itself
 		}
+		if string(state) == "syscall" && (bytes.Contains(body, []byte("unix.Openat(")) || bytes.Contains(body, []byte("syscall.Open(")) || bytes.Contains(body, []byte("syscall.openat("))) {
+			// inside open(2): that takes microseconds unless the path is a named pipe without a peer, where it never
+			// returns.  Seen in every sample of an idle period, it is a parked activity like any other.
+			continue
+		}
 		if bytes.Contains(body, []byte("gokrazy/rsync")) || bytes.Contains(body, []byte("main.idleSpin")) {
 			return false
 		}
